@@ -387,8 +387,117 @@ func c10R3(p *Prog, r *Report) {
 		return true
 	})
 	if n < 2 {
-		r.Bad("builder.(*Struct).Assign/zero guards", p.PosStr(sa.Decl.Pos()), "expected the guard for mapped fields and for custom function fields")
+		// the guards may live in private helpers of Struct.Assign: decide on control and data dependence instead
+		good, bad := zeroGuardSitesSSA(p)
+		if good >= 2 && bad == "" {
+			r.OK("builder.(*Struct).Assign/zero guards", p.PosStr(sa.Decl.Pos()), fmt.Sprintf("%d emissions of `!= ZeroValue(S.T)`, each under shouldCheckAgainstZero(ctx, S, …) for that same S, the guarded statements also emitted unguarded on the other path", good))
+		} else {
+			if bad == "" {
+				bad = "expected the guard for mapped fields and for custom function fields"
+			}
+			r.Bad("builder.(*Struct).Assign/zero guards", p.PosStr(sa.Decl.Pos()), bad)
+		}
 	}
+}
+
+// zeroGuardSitesSSA: in Struct.Assign and its private helpers, every call of xtype.ZeroValue(V.T) is dominated by an
+// edge on which shouldCheckAgainstZero(ctx, V, …) — for that same V — is true, and the statement list wrapped by the
+// emitted If(…).Block(S...) is also appended or returned as it is (the unguarded emission of the other path).
+func zeroGuardSitesSSA(p *Prog) (int, string) {
+	good := 0
+	bad := ""
+	for _, rf := range p.Region("builder.(*Struct).Assign") {
+		sf := p.SSAFunc(rf)
+		if sf == nil {
+			continue
+		}
+		allInstrs(sf, true, func(in ssa.Instruction) {
+			zc, ok := in.(*ssa.Call)
+			if !ok || ssaCalleeObj(zc) == nil || !isFunc(ssaCalleeObj(zc), modPath+"/xtype", "", "ZeroValue") || len(zc.Call.Args) != 1 {
+				return
+			}
+			var v ssa.Value
+			if ld, ok := zc.Call.Args[0].(*ssa.UnOp); ok && ld.Op == token.MUL {
+				if fa, ok := ld.X.(*ssa.FieldAddr); ok && fieldName(fa) == "T" {
+					v = fa.X
+				}
+			}
+			pos := p.PosStr(zc.Pos())
+			if v == nil {
+				bad = pos + ": ZeroValue is not applied to <type>.T"
+				return
+			}
+			guarded := false
+			for _, f := range factsAt(zc.Block()) {
+				if fc, ok := f.(*ssa.Call); ok && ssaCalleeObj(fc) != nil && isFunc(ssaCalleeObj(fc), modPath+"/builder", "", "shouldCheckAgainstZero") && len(fc.Call.Args) > 1 && fc.Call.Args[1] == v {
+					guarded = true
+				}
+			}
+			if !guarded {
+				bad = pos + ": the zero value compared with is not that of the source type the guard decision was made for (shouldCheckAgainstZero(ctx, S, …) with the same S does not dominate it)"
+				return
+			}
+			// follow the emission chain to .Block(S...)
+			var blockArg ssa.Value
+			seen := map[ssa.Value]bool{}
+			var follow func(x ssa.Value, d int)
+			follow = func(x ssa.Value, d int) {
+				if d > 8 || seen[x] || x.Referrers() == nil || blockArg != nil {
+					return
+				}
+				seen[x] = true
+				for _, ref := range *x.Referrers() {
+					switch y := ref.(type) {
+					case *ssa.Call:
+						if o := ssaCalleeObj(y); o != nil && objPkgPath(o) == jenPath {
+							if o.Name() == "Block" && len(y.Call.Args) > 0 {
+								blockArg = y.Call.Args[len(y.Call.Args)-1]
+								return
+							}
+							follow(y, d+1)
+						}
+					case *ssa.Store:
+						// element of a variadic argument list
+						if ia, ok := y.Addr.(*ssa.IndexAddr); ok {
+							if arr, ok := ia.X.(*ssa.Alloc); ok && arr.Referrers() != nil {
+								for _, r2 := range *arr.Referrers() {
+									if sl, ok := r2.(*ssa.Slice); ok {
+										follow(sl, d+1)
+									}
+								}
+							}
+						}
+					case *ssa.MakeInterface:
+						follow(y, d+1)
+					}
+				}
+			}
+			follow(zc, 0)
+			if blockArg == nil {
+				bad = pos + ": the comparison with the zero value does not guard a block of statements"
+				return
+			}
+			plain := false
+			if blockArg.Referrers() != nil {
+				for _, ref := range *blockArg.Referrers() {
+					switch y := ref.(type) {
+					case *ssa.Return:
+						plain = true
+					case *ssa.Call:
+						if b, ok := y.Call.Value.(*ssa.Builtin); ok && b.Name() == "append" && len(y.Call.Args) == 2 && y.Call.Args[1] == blockArg {
+							plain = true
+						}
+					}
+				}
+			}
+			if !plain {
+				bad = pos + ": the guarded statements are not emitted unguarded on the path where no zero-value check is wanted"
+				return
+			}
+			good++
+		})
+	}
+	return good, bad
 }
 
 func c10R4(p *Prog, r *Report) {
@@ -814,7 +923,7 @@ func c11R4(p *Prog, r *Report) {
 	if bm := p.Func("generator.(*generator).buildMethod"); bm != nil {
 		info := bm.Pkg.TypesInfo
 		ok := false
-		ast.Inspect(bm.Decl, func(n ast.Node) bool {
+		p.inspectRegion("generator.(*generator).buildMethod", func(_ *FuncInfo, n ast.Node) bool {
 			cl, isCl := n.(*ast.CompositeLit)
 			if isCl && isNamed(info.TypeOf(cl), modPath+"/builder", "MethodContext") {
 				if v := compositeField(cl, "UseConstructor"); v != nil && strings.HasSuffix(exprString(v), ".Constructor != nil") {
@@ -905,6 +1014,22 @@ func c11R5(p *Prog, r *Report) {
 				for _, fact := range factsAt(b) {
 					if loadsField(fact, "UseConstructor") {
 						under = true
+					}
+				}
+				if !under && f != fi {
+					// the constructor path was moved into a private helper: the test sits at its call sites
+					sites := p.SSACallSites(sf)
+					under = len(sites) > 0
+					for _, cs := range sites {
+						at := false
+						for _, fact := range factsAt(cs.Block()) {
+							if loadsField(fact, "UseConstructor") {
+								at = true
+							}
+						}
+						if !at {
+							under = false
+						}
 					}
 				}
 				upd := false
